@@ -29,7 +29,7 @@ VDates(b) == {[b EXCEPT !.dates = <<W1>>], [b EXCEPT !.dates = <<W2>>], [b EXCEP
               [b EXCEPT !.times = <<TW>>], [b EXCEPT !.wds = <<"Sun">>], [b EXCEPT !.wds = <<"Mon", "Tue">>],
               [b EXCEPT !.dates = <<W1>>, !.times = <<TW>>], [b EXCEPT !.times = <<TW>>, !.wds = <<"Mon">>],
               [b EXCEPT !.dates = <<<<"", "2024-03-10T12:00:00Z">>>>]}
-VPath(b) == {[b EXCEPT !.path = p] : p \in {<<"static", "/A">>, <<"static", "/b">>, <<"dyn", "/x/@m">>, <<"dyn", "/x/@m/y">>, <<"dyn", "/X/@m">>, <<"dyn", "/X/@m/y">>}}
+VPath(b) == {[b EXCEPT !.path = p] : p \in {<<"static", "/A">>, <<"static", "/b">>, <<"dyn", "/x/@m">>, <<"dyn", "/x/@m/y">>, <<"dyn", "/X/@m">>, <<"dyn", "/X/@m/y">>, <<"dyn", "/X/y/@m">>}}
 Singles(b) == {b} \cup VScheme(b) \cup VHost(b) \cup VIps(b) \cup VMethods(b) \cup VHdrs(b) \cup VDates(b) \cup VPath(b)
 \* multi-layer combinations
 Combos(b) == {
@@ -51,7 +51,7 @@ QuickPick(b) == {b, [b EXCEPT !.scheme = "https"], [b EXCEPT !.host = <<"static"
                  [b EXCEPT !.hdrs = <<H("X-J", "is_defined", ""), H("X-K", "is_defined", "")>>], [b EXCEPT !.hdrs = <<H("X-K", "is_defined", "")>>],
                  [b EXCEPT !.dates = <<W1>>], [b EXCEPT !.times = <<TW>>, !.wds = <<"Mon">>],
                  [b EXCEPT !.path = <<"static", "/A">>], [b EXCEPT !.path = <<"dyn", "/x/@m">>], [b EXCEPT !.path = <<"dyn", "/x/@m/y">>],
-                 [b EXCEPT !.path = <<"dyn", "/X/@m">>], [b EXCEPT !.path = <<"dyn", "/X/@m/y">>]}
+                 [b EXCEPT !.path = <<"dyn", "/X/@m">>], [b EXCEPT !.path = <<"dyn", "/X/@m/y">>], [b EXCEPT !.path = <<"dyn", "/X/y/@m">>]}
 PoolQuick == QuickPick(Base("r1")) \cup QuickPick(Base("r2")) \cup Combos(Base("r3"))
 
 \* histories (C02): few rules whose host / path patterns force tree splits and collapses, two versions of some ids
@@ -84,7 +84,7 @@ Universe == [ scheme |-> <<"http", "https", "">>,
                           <<HL("X-K", "k-ab")>>, <<HL("x-k", "K-AB")>>, <<HL("X-K", "xk-ab9")>>, <<HL("X-K", "K-ab")>> >>,
               at |-> <<"2024-03-10T12:30:00Z", "2024-03-10T11:59:59.750Z", "2024-03-10T12:00:00Z", "2024-03-10T12:59:59.750Z", "2024-03-10T13:00:00Z",
                        "2024-03-10T23:59:59.750Z", "2024-03-11T00:00:00Z", "2024-03-11T12:30:00Z", "">>,
-              path |-> <<"/a", "/x/ab", "/b", "/A", "/x/AB", "/x/ab/y", "/x/", "/X/ab", "/X/ab/y">> ]
+              path |-> <<"/a", "/x/ab", "/b", "/A", "/x/AB", "/x/ab/y", "/x/", "/X/ab", "/X/ab/y", "/X/y/ab", "/x/y/ab">> ]
 
 PoolSeq == SetToSeq(Pool)
 Idx(r) == CHOOSE i \in 1..Len(PoolSeq) : PoolSeq[i] = r
